@@ -17,4 +17,12 @@ PROPS = {
         trusted=["time.Time.After/Compare of the Go standard library (modelled as lexicographic (sec,nsec) order; validated against time.Compare on every run)",
                  "sort.SliceStable (used only in the native evaluation)"],
     ),
+    "C19": dict(
+        props="Props/C19.v", module="Props.C19", harness="C19",
+        n_quick=400, n_thorough=5000,
+        model_files=["Model/Nlv.v", "Model/Vocab.v"],
+        go_funcs=["NaturalLanguageValues.Get/Set/Add/Append/Count/First/Equals"],
+        design_ref="7/C19",
+        trusted=["Go slice append/range semantics as modelled by list append / traversal"],
+    ),
 }
